@@ -174,9 +174,9 @@ Qed.
 
 Section ClusterSteps.
 Variable cs : list ctxspec.
-Variable ic : ctxspec.
-Let p := mkP cs (Some ic) false.
-Let i0 := init_ctx ic.
+Variable p : parser.
+Hypothesis Pcs : p_ctxs p = cs.
+Variable i0 : rctx.
 
 Lemma member_wide c given o :
   member_ok cs c given o = true ->
@@ -205,7 +205,7 @@ Lemma one_inv c given o args :
   Inv_w c (one_given given o) (run_one args o).
 Proof.
   intros G Os Iw.
-  destruct (one_steps cs ic c given o [] (mkRCtx None [] args) None false G Os Iw I)
+  destruct (one_steps cs p Pcs i0 c given o [] (mkRCtx None [] args) None false G Os Iw I)
     as [_ [_ [_ [_ H]]]]. exact H.
 Qed.
 
@@ -224,7 +224,7 @@ Proof.
     split; [apply steps_nil|]. auto.
   - cbn [members_ok] in H. rewrite !andb_true_iff in H. destruct H as [[Mo _] Hl].
     destruct (member_wide c given o Mo) as [Ws _].
-    destruct (one_steps cs ic c given (sep o) done cur fl got G Ws Iw I) as [fl1 [got1 [S1 [I1 Iw1]]]].
+    destruct (one_steps cs p Pcs i0 c given (sep o) done cur fl got G Ws Iw I) as [fl1 [got1 [S1 [I1 Iw1]]]].
     rewrite run_one_sep in S1, I1, Iw1. rewrite one_given_sep in Iw1.
     set (cur1 := with_args cur (run_one (rc_args cur) o)) in *.
     destruct (IH (one_given given o) done cur1 fl1 got1 G Hl Iw1 I1) as [fl2 [got2 [S2 [I2 Iw2]]]].
